@@ -24,6 +24,7 @@ RACE=""
 SCR=$(mktemp -d /var/tmp/verif-$PROP-XXXXXX) || exit 2
 trap 'rm -rf "$SCR"' EXIT
 "$VERIF_DIR/build.sh" "$SCR" "$FLAV" $RACE || exit 2
+export VERIF_REPO_COPY="$SCR/repo" VERIF_SCRATCH="$SCR"
 if [ "$MODE" = replay ]; then
   "$SCR/simworker" replay -file "$FILE"
   exit $?
